@@ -95,6 +95,13 @@ Definition reuse_check (e : env) (c : reuse_case) : bool :=
   | _, _ => false
   end.
 
-Inductive gcase := GEnc (c : c03_case) | GDec (c : dec_case) | GReuse (c : reuse_case).
+(* the implementation died (out of memory) or allocated more than its bound while decoding these bytes: the
+   model must attribute that to the known site, a LIST count larger than the bytes left (DHuge) - a death or
+   over-allocation the model does not predict is a mismatch, not an instance of the known finding *)
+Definition huge_check (e : env) (sid : nat) (h : hexs) : bool :=
+  match decode e sid (unhex h) with DHuge => true | _ => false end.
+
+Inductive gcase := GEnc (c : c03_case) | GDec (c : dec_case) | GReuse (c : reuse_case) | GHuge (sid : nat) (h : hexs).
 Definition gcase_check (e : env) (c : gcase) : bool :=
-  match c with GEnc x => c03_check e x | GDec x => dec_check e x | GReuse x => reuse_check e x end.
+  match c with GEnc x => c03_check e x | GDec x => dec_check e x | GReuse x => reuse_check e x
+  | GHuge sid h => huge_check e sid h end.
